@@ -18,6 +18,13 @@
     unary r5 <a> fn=<cube|aff|odd>
     binary r5 <a> <b> fn=<axy|wsum|psq>
 
+  Lines that create no instruction (handled by the drivers):
+
+    cmp <eq|ne|lt|le|gt|ge|pcmp> <a> <b>     PartialEq / PartialOrd of records or traces
+                                              → c=true|false   (pcmp: c=less|equal|greater|none)
+    clone r6 <a>                             Clone: r6 names a copy of <a>
+    show <a>                                 Display → s=<the number>
+
   Core Lean only.
 -/
 import EasyMl.Model.TapeExec
@@ -27,7 +34,8 @@ namespace Driver
 open EasyMl EasyMl.Spec
 
 /-- what the drivers need of an element type -/
-class Elem (R : Type) extends Add R, Sub R, Mul R, Div R, Neg R, Zero R, One R, RealFns R, BEq R where
+class Elem (R : Type) extends Add R, Sub R, Mul R, Div R, Neg R, Zero R, One R, RealFns R, BEq R,
+    NumOrd R where
   parse : String → Option R
   render : R → String
 
@@ -161,6 +169,20 @@ def knownOp (toks : List String) : Bool :=
     ["const", "var", "neg", "sum", "pow", "pown", "npow", "unary", "binary"].contains op
       || (arithOf op).isSome || (arithNumOf op).isSome || (swappedOf op).isSome || (realOf op).isSome
   | [] => false
+
+/-- answer of a comparison line from the two results `==` and `partial_cmp` gave -/
+def cmpAnswer (op : String) (eqv : Bool) (pc : Option Ordering) : Option String :=
+  let b := fun (x : Bool) => some (if x then "c=true" else "c=false")
+  match op with
+  | "eq" => b eqv
+  | "ne" => b (!eqv)
+  | "lt" => b (ordLt pc)
+  | "le" => b (ordLe pc)
+  | "gt" => b (ordGt pc)
+  | "ge" => b (ordGe pc)
+  | "pcmp" => some (match pc with
+    | some .lt => "c=less" | some .eq => "c=equal" | some .gt => "c=greater" | none => "c=none")
+  | _ => none
 
 def renderList (l : List R) : String :=
   if l.isEmpty then "-" else ",".intercalate (l.map Elem.render)
